@@ -124,7 +124,13 @@ Definition env2 (X y : value) : string -> value := fun x => if String.eqb x "X" 
 (* global functions: on finite numeric two-dimensional data check_array and validate_data return the data;
    check_is_fitted passes on a fitted object *)
 Definition fn_std (f : string) (args : list value) : value :=
-  if String.eqb f "check_array" then match args with [VMat c X] => VMat c X | [VData X] => VData X | _ => VErr end
+  if String.eqb f "check_array" then
+    match args with
+    | [VMat c X] => VMat c X | [VData X] => VData X
+    (* check_array(X, dtype=np.float64): the data of the model are reals / exact integers, the conversion to double is the identity *)
+    | [VMat c X; VKw k (VStr t)] => if String.eqb k "dtype" && String.eqb t "np.float64" then VMat c X else VErr
+    | [VData X; VKw k (VStr t)] => if String.eqb k "dtype" && String.eqb t "np.float64" then VData X else VErr
+    | _ => VErr end
   else if String.eqb f "validate_data" then match args with VSelf :: VMat c X :: _ => VMat c X | _ => VErr end
   else if String.eqb f "check_is_fitted" then match args with [VSelf] => VNone | _ => VErr end
   else if String.eqb f "check_random_state" then match args with [_] => VRng | _ => VErr end
